@@ -4,9 +4,9 @@
 
    Every rule function returns `option (expr * bool)`: None = the C returns its argument
    (no rewrite); Some (e', ok) = the C returns the new node e'.  `ok` is a GHOST output, not
-   part of the code: it is false exactly when the rule exchanged the evaluation order of two
-   operands without `swap_ok` holding for them (the guard the C applies is weaker, or
-   absent) - the soundness theorem is stated for ok = true, the refutation for ok = false.
+   part of the code: it would be false if a rule exchanged the evaluation order of two
+   operands without `swap_ok` holding for them.  With the guards of the current source (both
+   operands free of side effects, fix 159355b) it is always true (PeepFacts.peep_flag).
 
    Outside the fragment (not modelled): big-integer and float data nodes (peepTimesOp /
    peepPositive / BIntToSInt / SIntToBInt on BInt), peepIf / peepSelect / peepCCall /
@@ -122,9 +122,16 @@ Section Tables.
     | _ => None
     end.
 
-  (* peepAdditiveOp *)
+  (* peepAdditiveOp.  (-a) + b ==> b - a exchanges the operands: only when neither has a side
+     effect ("if (pos && !(peepNoSideFx(lhs) && peepNoSideFx(rhs))) pos = NULL") *)
   Definition additive (t : fty) (p : pop) (l r : expr) : option (expr * bool) :=
-    let first := if pop_eqb p OpPlus then positive l else None in
+    let first :=
+        if pop_eqb p OpPlus then
+          match positive l with
+          | Some x => if negb (has_fx l) && negb (has_fx r) then Some x else None
+          | None => None
+          end
+        else None in
     let '(l', r', swapped) := match first with Some _ => (r, l, true) | None => (l, r, false) end in
     let pos := match first with Some x => Some x | None => positive r' end in
     match pos with
@@ -216,7 +223,7 @@ Section Tables.
             | None => None
             | Some j =>
                 let d := field odual (bop j) in
-                if negb (pop_eqb d OpNone) && (negb (has_fx x) || negb (has_fx y)) then
+                if negb (pop_eqb d OpNone) && (negb (has_fx x) && negb (has_fx y)) then
                   match make_binary d (btype j) y x with
                   | Some e => Some (e, swap_ok x y)
                   | None => None
